@@ -674,7 +674,7 @@ func main() {
 	}
 	for _, raw := range e.CorpusCases() {
 		var k kase
-		if json.Unmarshal(raw, &k) == nil && k.Kind != "" {
+		if json.Unmarshal(raw, &k) == nil && (k.Kind == "table" || k.Kind == "archive" || k.Kind == "pbs" || k.Kind == "journal") {
 			runOne(k)
 		}
 	}
